@@ -3,6 +3,9 @@ import Std.Data.HashSet
 import Wayfind.Model.Router
 import Wayfind.Model.CheckedParser
 import Wayfind.Spec.FitsExec
+import Wayfind.Spec.DrawingText
+import Wayfind.Model.Regex
+import Wayfind.Generated.Facts
 import Wayfind.Spec.Greedy
 import Wayfind.Spec.RefWalk
 import Wayfind.Spec.Drawing
@@ -265,11 +268,17 @@ def checkDump (skeleton : String) (expected : List (List Part)) : List String :=
     (match got.find? (fun k => !want.contains k) with | some k => [s!"marked path {String.join (k.map showPart)} is not a live route"] | none => []) ++
     nodeClauses true "root" n
 
+/-- the drawing (`Node.display`) of the tree rebuilt from a structural dump -/
+def drawingOfDump (skeleton : String) : Option String :=
+  match (skeleton.splitOn ";").mapM parseDEnt with
+  | some (root :: rest) => some (Node.display (buildNode (rest.length + 1) root rest))
+  | _ => none
+
 def classOf (op : Op) : String :=
   match op with
   | .reset => "reset" | .new .. => "new" | .constraint .. => "constraint" | .insert .. => "insert"
   | .delete .. => "delete" | .search .. => "search" | .display _ => "display" | .dump _ => "dump" | .clone .. => "clone"
-  | .drop _ => "drop" | .parse _ => "parse" | .note => "note" | .bad _ => "bad"
+  | .drop _ => "drop" | .parse _ => "parse" | .nameck _ => "nameck" | .note => "note" | .bad _ => "bad"
 
 /-- model step: returns the model's output line and the new model routers -/
 def modelStep (routers : List (Nat × Router)) (op : Op) : List (Nat × Router) × String :=
@@ -311,6 +320,11 @@ def modelStep (routers : List (Nat × Router)) (op : Op) : List (Nat × Router) 
     | some x => (set r2 x.clone, "ok")
   | .drop r => (routers.filter (·.1 != r), "ok")
   | .parse t => (routers, showParsed (parseTemplates t))
+  | .nameck n =>
+    -- the OCI example's name constraint: the pattern literal of the source (this run's extraction), parsed and matched
+    (routers, match parseRe Generated.ociNamePattern with
+      | some r => if r.matches n then "accept" else "reject"
+      | none => "pattern-unsupported")
   | .note => (routers, "ok")
   | .bad l => (routers, "bad-op " ++ l)
 
@@ -337,6 +351,15 @@ def judgeStep (s : JS) (models : List (Nat × Router)) (idx : Nat) (op : Op) (im
   let s := if implCore.startsWith "panic" then (s.emit s!"O {idx} C07 panic {implCore}").bump "panics" else s
   -- the structural dump: the skeleton (labels, order, marks) is compared; the hidden state (shortcut flags, dirty mark)
   -- is only counted, a rewrite of the code may legitimately keep other flags
+  -- the stored info (`I=`: rank fields depth/length, template and expansion text of every routable node) is a stream of its
+  -- own (class `stored`): C03 names depth and length as the ranking keys, C01/C04 the reported texts
+  let (implCore, implI) := match implCore.splitOn " I=" with | [a, b] => (a, some b) | _ => (implCore, none)
+  let (modelCore, modelI) := match modelCore.splitOn " I=" with | [a, b] => (a, some b) | _ => (modelCore, none)
+  let s := match implI, modelI with
+    | some a, some b =>
+      if a == b then s.bump "dump.stored-info.equal" else (s.bump "dump.stored-info.differs").emit s!"D {idx} stored\t{a}\t{b}"
+    | none, some _ => if cls == "dump" then s.bump "dump.stored-info.unavailable" else s
+    | _, _ => s
   let (implCore, implF) := match implCore.splitOn " F=" with | [a, b] => (a, some b) | _ => (implCore, none)
   let (modelCore, modelF) := match modelCore.splitOn " F=" with | [a, b] => (a, some b) | _ => (modelCore, none)
   let s := match implF, modelF with
@@ -355,7 +378,10 @@ def judgeStep (s : JS) (models : List (Nat × Router)) (idx : Nat) (op : Op) (im
   -- correspondence
   let s := if implCore != modelCore && !dumpOff then s.emit s!"D {idx} {cls}\t{implCore}\t{modelCore}" else s
   let s := match implR, modelR with
-    | some a, some b => if a != b then s.emit s!"D {idx} render\t{a}\t{b}" else s.bump "rendered.compared"
+    | some a, some b =>
+      -- two streams: the caret rendering of template errors (C14) and the messages of the route-table errors (C19)
+      let rcls := if (implCore.splitOn " ").getD 1 "" == "Template" then "render-template" else "render"
+      if a != b then s.emit s!"D {idx} {rcls}\t{a}\t{b}" else s.bump "rendered.compared"
     | _, _ => s
   let s := s.bump ("impl." ++ cls ++ "." ++ firstWord implCore (if implCore.startsWith "err" then 2 else 1))
   -- oracles on the implementation
@@ -433,6 +459,13 @@ def judgeStep (s : JS) (models : List (Nat × Router)) (idx : Nat) (op : Op) (im
         | none => s.emit s!"O {idx} C14 unparsable template error {implCore}"
       else s
     | .note => s
+    | .nameck n =>
+      -- oracle: the syntax tree that `Proofs/Regex2` proves equal to the distribution-spec grammar
+      let want := if OciNameRe.nameRe.matches n then "accept" else "reject"
+      let s := s.bump ("nameck." ++ want)
+      if implCore == "accept" || implCore == "reject" then
+        if implCore != want then s.emit s!"O {idx} C17 the name constraint answers {implCore} for {hex n}, the repository-name grammar says {want}" else s
+      else s
     | .bad _ => s.emit s!"O {idx} BAD unparsable operation line"
     | .display r =>
       match s.get r with
@@ -450,7 +483,13 @@ def judgeStep (s : JS) (models : List (Nat × Router)) (idx : Nat) (op : Op) (im
               | e :: _ => s.emit s!"O {idx} C15 {e}"
             | none => s
           else s.bump "c15.skipped"
+        -- premise of the text theorems (C15_printed_*): evaluated on the model's tree
+        let s := match models'.find? (·.1 == r) with
+          | some (_, mr) => if Node.drawable mr.root then s.bump "c15.drawable-model-tree" else s.bump "c15.undrawable-model-tree"
+          | none => s
         let key := liveKey j.live ++ "#tree"
+        -- remembered for the `dump` that follows: the printed tree must be the drawing of the dumped nodes
+        let s := { s with obs := s.obs.insert ("#lastdisplay#" ++ toString r) (implCore, idx) }
         match s.obs.get? key with
         | some (prevLine, pidx) =>
           if prevLine != implCore then s.emit s!"O {idx} FUN tree differs from op {pidx} with the same live set" else s.bump "fun.tree.repeat"
@@ -466,6 +505,18 @@ def judgeStep (s : JS) (models : List (Nat × Router)) (idx : Nat) (op : Op) (im
         let s := match errs with
           | [] => s
           | e :: _ => s.emit s!"O {idx} C15 structural dump: {e}"
+        -- text level, every alphabet: the tree printed by the preceding `display` is the drawing (src/node/display.rs as
+        -- modelled by `Node.display`, labels rendered with from_utf8_lossy) of exactly these nodes
+        let s := match s.obs.get? ("#lastdisplay#" ++ toString r) with
+          | some (tree, pidx) =>
+            if pidx + 1 == idx && tree.startsWith "tree " then
+              match drawingOfDump skel with
+              | some text =>
+                if "tree " ++ hex (strBytes text) == tree then s.bump "c15.text-is-drawing-of-dump"
+                else s.emit s!"O {idx} C15 the printed tree (op {pidx}) is not the drawing of the tree's own nodes: printed {tree.drop 5}, nodes draw as {hex (strBytes text)}"
+              | none => s
+            else s
+          | none => s
         let key := liveKey j.live ++ "#dump"
         match s.obs.get? key with
         | some (prevLine, pidx) =>
